@@ -279,6 +279,23 @@ impl<A: Codec> Seq<A> {
     }
 }
 
+#[cfg(feature = "verif-hooks")]
+impl<A: Codec> Seq<A> {
+    /// Verification hook: capacity of the backing bit vector, in bits
+    pub fn verif_capacity_bits(&self) -> usize {
+        self.bv.capacity()
+    }
+}
+
+#[cfg(feature = "verif-hooks")]
+impl<A: Codec> SeqSlice<A> {
+    /// Verification hook: (index of the slice's first bit inside its machine word, length in bits)
+    pub fn verif_layout(&self) -> (usize, usize) {
+        let head = self.bs.as_bitptr().raw_parts().1.into_inner() as usize;
+        (head, self.bs.len())
+    }
+}
+
 impl<A: Codec> ReverseMut for Seq<A> {
     fn rev(&mut self) {
         self.bv.reverse();
